@@ -26,7 +26,6 @@ import (
 	"testing"
 	"time"
 
-	"lunar/toolkit-core/clock"
 	context_manager "lunar/toolkit-core/context-manager"
 	"lunar/toolkit-core/verifhook"
 
@@ -626,8 +625,8 @@ func (x *executor) releaseSlot(r *rq) error {
 }
 
 func (x *executor) removalsSettled() bool {
-	held := len(x.heldRemovals())
-	return pollUntil(guard, func() bool { return countGoroutines(isRemoval)-x.baseRemovals <= held })
+	// (re-read the held ones on every poll: a clean-up goroutine that is to be held may still be on its way to the hook)
+	return pollUntil(guard, func() bool { return countGoroutines(isRemoval)-x.baseRemovals <= len(x.heldRemovals()) })
 }
 
 func (x *executor) releaseRemoval(r *rq) error {
@@ -884,8 +883,8 @@ func (x *executor) shutdown() error {
 		x.or.candidate(now)
 	}
 	for _, m := range x.alive() {
-		rel, _ := m.drained()
-		m.pred = rel
+		m.drained()
+		m.pred = ids(before)
 	}
 	regs := x.clk.Registrations(loopOwner)
 	x.clk.Advance(tickStep)
@@ -917,17 +916,7 @@ func (x *executor) shutdown() error {
 		})
 		return violation("shutdown did not release %v: the loop finished its draining pass, %v later they still wait", left, releaseWait)
 	}
-	// mirrors predicted "all released"; the statement asks for a verdict, `blocked` is what DESIGN expects
-	for _, m := range x.alive() {
-		m.pred = nil
-	}
-	union := map[string]bool{}
-	for _, r := range before {
-		union[r.ID] = true
-	}
-	for _, m := range x.alive() {
-		m.pred = ids(before)
-	}
+	// an `allowed` at the drain would be judged like any admission; the mirrors expect `blocked` for all
 	if e := x.observeTick(now, before, true); e != nil {
 		return e
 	}
@@ -1178,12 +1167,17 @@ func genSched() *rapid.Generator[sched] {
 			StartMs: rapid.SampledFrom([]int{0, 0, 300, 950}).Draw(t, "startms"),
 			TTL:     3600,
 		}}
+		// a palette per case: many equal priorities (arrival order matters) or many different ones
+		palette := rapid.SampledFrom([][]string{
+			{"low"}, {"high", "low"}, {"mid", "mid", "low"}, {"", "other"},
+			{"high", "mid", "low", "low", "mid", "high", "", "other"},
+		}).Draw(t, "palette")
 		n := rapid.IntRange(1, 24).Draw(t, "len")
 		for i := 0; i < n; i++ {
 			switch k := rapid.IntRange(0, 19).Draw(t, "op"); {
 			case k < 10:
 				sc.Steps = append(sc.Steps, step{Op: "arrive",
-					Prio:       rapid.SampledFrom([]string{"high", "mid", "low", "low", "mid", "high", "", "other"}).Draw(t, "prio"),
+					Prio:       rapid.SampledFrom(palette).Draw(t, "prio"),
 					Hold:       rapid.IntRange(0, 5).Draw(t, "hold") == 0,
 					HoldRemove: rapid.IntRange(0, 5).Draw(t, "holdrm") == 0})
 			case k < 16:
@@ -1232,12 +1226,13 @@ func judge(r *ev.Recorder, sc sched, rep report) (fail string, infra string) {
 	return "", ""
 }
 
-func runCase(r *ev.Recorder, sc sched) (fail string, trace []string, infra string) {
+func runCase(r *ev.Recorder, sc sched) (fail string, trace []string, infra string, inconcl bool) {
 	journal(sc)
 	defer clearJournal()
 	rep := runSchedule(sc, execOpts{})
 	fail, infra = judge(r, sc, rep)
 	trace = rep.Trace
+	inconcl = rep.Inconclusive != ""
 	if fail != "" || infra != "" {
 		return
 	}
@@ -1254,10 +1249,10 @@ func runCase(r *ev.Recorder, sc sched) (fail string, trace []string, infra strin
 		}
 		died, out, crep := isolated(sc)
 		if died {
-			return "the process died during shutdown: " + crashLine(out), rep.Trace, ""
+			return "the process died during shutdown: " + crashLine(out), rep.Trace, "", false
 		}
 		if f, inf := judge(r, sc, crep); f != "" || inf != "" {
-			return f, crep.Trace, inf
+			return f, crep.Trace, inf, false
 		}
 		r.Class("isolated-child-survived")
 	}
@@ -1266,13 +1261,18 @@ func runCase(r *ev.Recorder, sc sched) (fail string, trace []string, infra strin
 
 func TestQueueSchedules(t *testing.T) {
 	r := ev.New(t, "C06")
-	inconcl := 0
+	if p := os.Getenv("VERIF_REPLAY"); p != "" {
+		replayJSON(t, r, p)
+		return
+	}
+	cases, inconcl := 0, 0
 	rapid.Check(t, func(t *rapid.T) {
 		sc := genSched().Draw(t, "schedule")
 		r.Case()
+		cases++
 		r.Class(fmt.Sprintf("size=%d", sc.Config.Size))
 		r.Class(fmt.Sprintf("max=%d", sc.Config.Max))
-		fail, trace, infra := runCase(r, sc)
+		fail, trace, infra, inc := runCase(r, sc)
 		if infra != "" {
 			fmt.Println("VERIF-INFRA: " + infra)
 			t.Fatalf("VERIF-INFRA: %s", infra)
@@ -1280,6 +1280,142 @@ func TestQueueSchedules(t *testing.T) {
 		if fail != "" {
 			t.Fatalf("%s", r.Fail(failCase{sc, trace}, "%s", fail))
 		}
-		_ = inconcl
+		if inc {
+			inconcl++
+			if os.Getenv("C06_VERBOSE") != "" {
+				fmt.Printf("INCONCLUSIVE %s\n  %s\n", ev.JSON(sc), strings.Join(trace, "\n  "))
+			}
+		}
 	})
+	if !t.Failed() && inconcl*20 > cases+20 {
+		fmt.Printf("VERIF-INFRA: %d of %d schedules were inconclusive (the controller lost track of the implementation)\n", inconcl, cases)
+		t.Fatalf("too many inconclusive schedules")
+	}
+}
+
+// replayJSON re-executes the schedule of a replay file written by the driver (the journal of a
+// worker that died, or the recorded failing case) in an isolated child.
+func replayJSON(t *testing.T, r *ev.Recorder, path string) {
+	b, err := os.ReadFile(path)
+	if err != nil {
+		t.Fatalf("VERIF-INFRA: %v", err)
+	}
+	var f struct {
+		Journal struct {
+			Case *sched `json:"case"`
+		} `json:"journal"`
+		Failure struct {
+			Case struct {
+				Schedule *sched `json:"schedule"`
+			} `json:"case"`
+		} `json:"failure"`
+	}
+	if err := json.Unmarshal(b, &f); err != nil {
+		t.Fatalf("VERIF-INFRA: %v", err)
+	}
+	sc := f.Failure.Case.Schedule
+	if sc == nil {
+		sc = f.Journal.Case
+	}
+	if sc == nil {
+		t.Fatalf("VERIF-INFRA: no schedule in %s", path)
+	}
+	r.Case()
+	died, out, rep := isolated(*sc)
+	if died {
+		t.Fatalf("%s", r.Fail(failCase{*sc, nil}, "the process died: %s", crashLine(out)))
+	}
+	if fail, infra := judge(r, *sc, rep); fail != "" || infra != "" {
+		t.Fatalf("%s", r.Fail(failCase{*sc, rep.Trace}, "%s%s", fail, infra))
+	}
+	t.Logf("replayed without violation:\n  %s", strings.Join(rep.Trace, "\n  "))
+}
+
+// ---- witnesses of the listed findings ------------------------------------------------------------
+
+// C06-F1: A is admitted and opens the window; B then C (same priority) arrive late in that window;
+// one blocked tick puts B (the head) back with a fresh stamp, behind C; the window re-opens: C goes first.
+func witnessF1() sched {
+	return sched{Config: config{Max: 1, WindowS: 1, Size: 3, TTL: 3600}, Steps: []step{
+		{Op: "arrive", Prio: "low"}, {Op: "tick", N: 8}, {Op: "arrive", Prio: "low"}, {Op: "arrive", Prio: "low"}, {Op: "tick", N: 2}}}
+}
+
+// C06-F2: queue_size 1; A passes the size check and is held before it registers; B arrives, passes the
+// same check and registers; A registers: two requests wait.
+func witnessF2() sched {
+	return sched{Config: config{Max: 1, WindowS: 1, Size: 1, TTL: 3600}, Steps: []step{
+		{Op: "arrive", Prio: "low", Hold: true}, {Op: "arrive", Prio: "low"}, {Op: "release", N: 0}}}
+}
+
+// C06-F3: A is allowed; its clean-up goroutine is held before it removes A from the watcher's map;
+// shutdown: the draining tick signals A a second time.
+func witnessF3() sched {
+	return sched{Config: config{Max: 1, WindowS: 1, Size: 1, TTL: 3600}, KeepHeld: true, Steps: []step{
+		{Op: "arrive", Prio: "low", HoldRemove: true}, {Op: "tick", N: 1}}}
+}
+
+func hasFinding(rep report, id string) bool {
+	for _, f := range rep.Findings {
+		if f.ID == id {
+			return true
+		}
+	}
+	return false
+}
+
+func witnessInProcess(t *testing.T, id string, sc sched) {
+	r := ev.New(t, "C06")
+	r.Case()
+	journal(sc)
+	defer clearJournal()
+	rep := runSchedule(sc, execOpts{})
+	for _, c := range rep.Classes {
+		r.Class(c)
+	}
+	if rep.Infra != "" {
+		fmt.Println("VERIF-INFRA: " + rep.Infra)
+		t.Fatalf("VERIF-INFRA: %s", rep.Infra)
+	}
+	present := hasFinding(rep, id)
+	r.Class(fmt.Sprintf("witness_%s_present_%v", id, present))
+	r.NonTrivial(ev.JSON(sc), func() any { return map[string]any{"schedule": sc, "present": present} })
+	t.Logf("%s present=%v\n  %s", id, present, strings.Join(rep.Trace, "\n  "))
+	if rep.Violation != "" {
+		t.Fatalf("%s", r.Fail(failCase{sc, rep.Trace}, "%s", rep.Violation))
+	}
+	if rep.Inconclusive != "" {
+		r.Inconclusive(rep.Inconclusive)
+	}
+	for _, f := range rep.Findings {
+		if !r.KnownFinding(f.ID, func() any { return map[string]any{"schedule": sc, "what": f.Msg} }) {
+			t.Fatalf("%s", r.Fail(failCase{sc, rep.Trace}, "%s [defect %s present but not listed]", f.Msg, f.ID))
+		}
+	}
+}
+
+func TestWitnessEqualPriorityInversion(t *testing.T) { witnessInProcess(t, "C06-F1", witnessF1()) }
+
+func TestWitnessSlotCheckNotAtomic(t *testing.T) { witnessInProcess(t, "C06-F2", witnessF2()) }
+
+func TestWitnessShutdownSignalsTwice(t *testing.T) {
+	r := ev.New(t, "C06")
+	r.Case()
+	sc := witnessF3()
+	died, out, rep := isolated(sc)
+	present := died && strings.Contains(out, "negative WaitGroup counter")
+	r.Class(fmt.Sprintf("witness_C06-F3_present_%v", present))
+	r.NonTrivial(ev.JSON(sc), func() any { return map[string]any{"schedule": sc, "present": present} })
+	t.Logf("C06-F3 present=%v: %s", present, crashLine(out))
+	switch {
+	case present:
+		if !r.KnownFinding("C06-F3", func() any { return map[string]any{"schedule": sc, "crash": crashLine(out)} }) {
+			t.Fatalf("%s", r.Fail(failCase{sc, nil}, "the process died during shutdown: %s [defect C06-F3 present but not listed]", crashLine(out)))
+		}
+	case died:
+		t.Fatalf("%s", r.Fail(failCase{sc, nil}, "the process died during shutdown: %s", crashLine(out)))
+	default:
+		if fail, infra := judge(r, sc, rep); fail != "" || infra != "" {
+			t.Fatalf("%s", r.Fail(failCase{sc, rep.Trace}, "%s%s", fail, infra))
+		}
+	}
 }
